@@ -172,6 +172,9 @@ _ORACLES = {}
 def oracle_for(p, cplx, nfft, cls, sampling):
     key = (cplx, nfft, cls, sampling)
     if key not in _ORACLES:
+        # the matrices are N x N: keep the cache below ~400 MB whatever the budgets (escalated runs visit many large grids)
+        if sum(w.size for o in _ORACLES.values() for w in o.W.values()) > 5e7:
+            _ORACLES.clear()
         _ORACLES[key] = Oracle(p)
     return _ORACLES[key]
 
